@@ -67,7 +67,8 @@ Proof.
     + rewrite E1, E2. reflexivity.
     + rewrite E1, E2. reflexivity.
   - eapply tl_get_dict_congr; eauto. reflexivity.
-  - eapply tl_peek_congr; eauto.
+  - unfold current_mappings, tl_get.
+    destruct (stack_get_congr lclass 0 k_detour l l' eq_refl Hl) as [E|[[E1 E2]|[E1 E2]]]; rewrite ?E, ?E1, ?E2; reflexivity.
   - eapply tl_get_none_congr; eauto. reflexivity.
   - unfold get_dynamic_evaluate_fn. rewrite (tl_get_none_congr gclass 0 g_dynamic_evaluate gl gl'); auto.
     match goal with |- tl_get ?k ?d l = tl_get ?k ?d l' => exact (tl_get_exact_congr0 lclass 0 k d l l' eq_refl Hl) end.
@@ -148,12 +149,16 @@ Proof.
   rewrite (tl_get_dict_congr lclass 0 k_contextual s t eq_refl H).
   split; auto. apply tl_set_congr; auto.
 Qed.
-Lemma detour_enter_congr : forall a s t, seq_at lclass 0 s t -> enter_rel (detour_enter a s) (detour_enter a t).
+Lemma current_mappings_congr : forall s t, seq_at lclass 0 s t -> current_mappings s = current_mappings t.
 Proof.
-  intros a s t H. unfold detour_enter, enter_rel.
-  rewrite (tl_peek_congr lclass 0 k_detour v_empty_dict s t H).
-  destruct (tl_peek k_detour v_empty_dict t) as [x|p|x]; auto. destruct a as [x|vs|x]; auto.
-  split; auto. apply tl_push_congr; auto.
+  intros s t H. unfold current_mappings, tl_get.
+  destruct (stack_get_congr lclass 0 k_detour s t eq_refl H) as [E|[[E1 E2]|[E1 E2]]]; rewrite ?E, ?E1, ?E2; reflexivity.
+Qed.
+
+Lemma detour_enter_congr : forall a s t, seq_at lclass 0 s t -> enter_rel (detour_scope_enter a s) (detour_scope_enter a t).
+Proof.
+  intros a s t H. unfold detour_scope_enter, enter_rel.
+  rewrite (current_mappings_congr s t H). split; auto. apply tl_push_congr; auto.
 Qed.
 
 Lemma load_types_enter_congr : forall a l l' g g', seq_at gclass 0 g g' ->
